@@ -101,6 +101,7 @@ func c23BuildStream(menu []c23MenuFrame, e *c23Encoded, seq []int) *c23Stream {
 type c23Replay struct {
 	Section string   `json:"section"`
 	VCase   int      `json:"version_case"` // 0 = no negotiated version (latest), n = version n
+	Shape   int      `json:"session_shape,omitempty"` // c23Shape* (0 = no encryption values)
 	Seq     []int    `json:"menu_sequence,omitempty"`
 	Names   []string `json:"frame_names,omitempty"`
 	Cuts    []int    `json:"cuts,omitempty"`
@@ -113,6 +114,7 @@ type c23Stat struct {
 	outcomes          map[string]int64
 	buckets           [256][]uint64
 	split             c23SplitStats
+	sess              c23SessStats
 }
 
 func (s *c23Stat) add(h uint64) {
@@ -183,6 +185,7 @@ type c23Unit struct {
 type c23Worker struct {
 	r       *ev.R
 	feeders [c23NVCases]*c23Feeder
+	sfeeders [c23NVCases][c23NShapes]*c23Feeder
 	stop    *int32
 }
 
@@ -199,7 +202,12 @@ func (w *c23Worker) report(sec string, v *c23Viol, rp c23Replay) {
 	}
 }
 
-var c23Sections = []string{"splits", "bytes", "length-prefix", "mutations"}
+var c23Sections = []string{"splits", "bytes", "length-prefix", "mutations", "session-splits", "session-mutations"}
+
+const (
+	c23SecSessSplits    = 4
+	c23SecSessMutations = 5
+)
 
 // ---- section builders -------------------------------------------------------------------
 
@@ -519,8 +527,23 @@ func TestVerifC23(t *testing.T) {
 		return
 	}
 
+	items, nSettings, err := c23SessItems()
+	if err != nil {
+		r.HarnessError("session menu: %v", err)
+		return
+	}
+	var senc []*c23SessEncoded
+	for vcase := 0; vcase < c23NVCases; vcase++ {
+		e, err := c23EncodeSessItems(items, vcase)
+		if err != nil {
+			r.HarnessError("%v", err)
+			return
+		}
+		senc = append(senc, e)
+	}
+
 	if rf := r.Replay(); rf != nil {
-		c23RunReplay(r, rf, menu, enc)
+		c23RunReplay(r, rf, menu, enc, items, senc)
 		return
 	}
 
@@ -528,6 +551,17 @@ func TestVerifC23(t *testing.T) {
 	units = append(units, c23ByteUnits(ev.Pick(r, 2, 3), !th)...)
 	units = append(units, c23PrefixUnits(ev.Pick(r, 4, 5))...)
 	units = append(units, c23MutationUnits(menu, enc, th)...)
+	// session shapes x Setting bits: quick = all 1- and 2-chunk splits for every version case and
+	// all 3-chunk splits of the single-frame streams of the no-negotiated-version case;
+	// thorough = all 3-chunk splits everywhere
+	sessChunks := func(vcase, nframes int) int {
+		if th || (vcase == 0 && nframes == 1) {
+			return 3
+		}
+		return 2
+	}
+	units = append(units, c23SessSplitUnits(c23SecSessSplits, items, nSettings, senc, 2, sessChunks)...)
+	units = append(units, c23SessMutationUnits(c23SecSessMutations, items, nSettings, senc, ev.Pick(r, []int{c23ShapeEncCrypto}, []int{c23ShapeEncCrypto, c23ShapeEncKeys}), th)...)
 	// largest units first (better balance), then the seed permutes the order (order only)
 	sort.SliceStable(units, func(i, j int) bool { return units[i].size > units[j].size })
 	c23Permute(units, r.Seed())
@@ -577,6 +611,11 @@ func TestVerifC23(t *testing.T) {
 		"every byte string of length <= N fed as one chunk (quick additionally: all 3-byte strings whose first byte is type<<4); non-trivial = type nibble != 0 (the decoder looks past the first byte); distinct = distinct (version case, input)",
 		"header byte (16 type nibbles x flags {0,F}) x every length-prefix string over {00,01,40,7F,80,81,FF} up to the bound x 5 body tails (none, 1, 20 zero, 20 FF, 130 bytes)",
 		"every single-byte substitution (255 values x every position) of every menu frame encoding, fed whole and (quick: for substitutions at positions 0..2 = header and length prefix; thorough: at every position) truncated at every later position; thorough: also followed by a valid SEND",
+		"session shapes {no encryption, encrypted with cached crypto (what gateway auth sets), encrypted with keys only, key material present but encryption disabled} x every version case x " +
+			"(a) one SEND per Setting value (all 32 combinations of receipt/signal/no-encrypt/topic/stream + each undefined bit alone; payload encrypted and MsgKey signed with the session keys unless no-encrypt) and " +
+			"(b) every sequence of <= 2 frames of a 7-frame menu (no-encrypt SENDs, encrypted SENDs incl. an empty payload, PING, RECVACK), fed in every split into <= N chunks through the reused, overwritten read buffer; " +
+			"decoded SEND frames are retained and compared at the end of the stream; a decrypting session must yield the plain payload; every case is non-trivial; distinct = distinct (version case, shape, stream, cut set)",
+		"every single-byte substitution of every SEND of the session menu decoded on the decrypting session shapes (quick: cached crypto; thorough: both, plus every truncation): the MsgKey validation / base64 / AES-CBC / padding path sees arbitrary bytes",
 	}
 	var split c23SplitStats
 	totals := make([]map[string]int64, len(c23Sections))
@@ -606,6 +645,15 @@ func TestVerifC23(t *testing.T) {
 			bounds["extra_3_byte_first_bytes"] = ev.Pick(r, "type<<4 for all 16 type nibbles", "none needed (full)")
 		case 2:
 			bounds["max_prefix_bytes"] = ev.Pick(r, 4, 5)
+		case c23SecSessSplits:
+			bounds["session_shapes"] = c23ShapeNames[:]
+			bounds["setting_values"] = nSettings
+			bounds["sequence_menu"] = len(items) - nSettings
+			bounds["max_frames_per_stream"] = 2
+			bounds["max_chunks"] = ev.Pick(r, "3 for single-frame streams of the no-negotiated-version case, else 2", "3")
+		case c23SecSessMutations:
+			bounds["session_shapes"] = ev.Pick(r, c23ShapeNames[c23ShapeEncCrypto:c23ShapeEncCrypto+1], c23ShapeNames[c23ShapeEncCrypto:c23ShapeEncKeys+1])
+			bounds["truncations"] = th
 		}
 		r.Section(ev.Section{Name: name, Kind: "enum", Evaluations: evals, Distinct: distinct, Exhaustive: complete, Outcomes: int64(len(outs)),
 			Bounds: bounds, Note: notes[si], WallS: float64(secWall[si]) / 1e9 / float64(workers)})
@@ -616,7 +664,23 @@ func TestVerifC23(t *testing.T) {
 	r.Count("splits/cuts_inside_2_byte_length_prefix", split.varintCuts)
 	r.Guard("splits-hit-incomplete-frames", split.waits > 0 && split.insideCuts > 0 && split.varintCuts > 0,
 		"waits=%d cuts-inside-frame=%d cuts-inside-length-prefix=%d", split.waits, split.insideCuts, split.varintCuts)
-	for _, si := range []int{1, 2, 3} {
+	var sess c23SessStats
+	var retained int64
+	for si := range c23Sections {
+		for _, s := range stats[si] {
+			sess.noEncryptOnDecrypting += s.sess.noEncryptOnDecrypting
+			sess.decrypted += s.sess.decrypted
+			sess.passedThrough += s.sess.passedThrough
+			retained += s.split.retainedSends
+		}
+	}
+	r.Count("retained_send_frames_compared_after_buffer_reuse", retained)
+	r.Count("session-splits/no-encrypt_sends_on_decrypting_sessions", sess.noEncryptOnDecrypting)
+	r.Count("session-splits/decrypted_sends", sess.decrypted)
+	r.Count("session-splits/sends_passed_through", sess.passedThrough)
+	r.Guard("session-branches-all-seen", sess.noEncryptOnDecrypting > 0 && sess.decrypted > 0 && sess.passedThrough > 0 && retained >= sess.noEncryptOnDecrypting+sess.decrypted+sess.passedThrough,
+		"no-encrypt-on-decrypting=%d decrypted=%d passed-through=%d retained-and-compared=%d", sess.noEncryptOnDecrypting, sess.decrypted, sess.passedThrough, retained)
+	for _, si := range []int{1, 2, 3, c23SecSessMutations} {
 		o := totals[si]
 		var fr, er, wa int64
 		for k, n := range o {
@@ -638,20 +702,38 @@ func TestVerifC23(t *testing.T) {
 	r.Sample(map[string]any{"section": "length-prefix", "version_case": 5, "input_hex": "30ffffff7f00"})
 	r.Sample(map[string]any{"section": "mutations", "version_case": 6, "frame": "CONNECT", "original_hex": c23Hex(enc[6].wire[2]), "mutation": "byte 5 (DeviceID length low byte) := 0xff"})
 	r.Assume("'waits for more data' includes the decoder's answer for the reserved frame type 0 (DecodeFrame returns nil,0,nil); the property allows {frames, wait, error}")
-	r.Assume("sessions have no encryption keys (gateway.encryption_enabled unset): SEND payload decryption is C25's subject")
+	r.Sample(map[string]any{"section": "session-splits", "version_case": 0, "session": c23ShapeNames[c23ShapeEncCrypto], "frames": []string{"SEND-noencrypt", "SEND-encrypted"},
+		"stream_hex": c23Hex(c23BuildSessStream(items, senc[0], c23ShapeEncCrypto, []int{nSettings, nSettings + 1}).wire), "cuts": []int{5},
+		"meaning": "an encrypted session receives a no-encrypt SEND followed by an encrypted SEND; both decoded payloads are compared after the read buffer was overwritten"})
+	r.Assume("sections splits/bytes/length-prefix/mutations use sessions without encryption values; sections session-splits/session-mutations enumerate the session shapes with fixed AES key/IV (the strength and tamper evidence of the encryption is C25's subject; here only: decoding yields the original frames / never panics)")
+	r.Assume("retained-frame comparison after buffer reuse is demanded for SEND frames only: they are dispatched asynchronously and Adapter.OwnsDecodedFrames promises they own their bytes; other frame types are dispatched synchronously before the buffer is reused and may alias it")
 	r.Assume("reads past the input are detected by Go bounds checks: every Decode input is an exact-size copy (cap == len), so any index or re-slice past the input panics and is reported as decoder-panic")
 	r.Assume("frame equality as in C22 (fields the version does not carry are expected at their zero value); non-SEND frames are compared when Decode returns (synchronous dispatch), SEND frames additionally after the input buffer was overwritten (async dispatch, Adapter.OwnsDecodedFrames)")
 }
 
-func c23RunReplay(r *ev.R, rf *ev.ReplayFile, menu []c23MenuFrame, enc []*c23Encoded) {
+func c23RunReplay(r *ev.R, rf *ev.ReplayFile, menu []c23MenuFrame, enc []*c23Encoded, items []c23SessItem, senc []*c23SessEncoded) {
 	var pl c23Replay
 	if err := json.Unmarshal(rf.Replay, &pl); err != nil || pl.VCase < 0 || pl.VCase >= c23NVCases {
 		r.HarnessError("replay: bad payload: %v", err)
 		return
 	}
-	fd := c23NewFeeder(pl.VCase)
+	if pl.Shape < 0 || pl.Shape >= c23NShapes {
+		r.HarnessError("replay: bad session shape %d", pl.Shape)
+		return
+	}
+	fd := c23NewSessFeeder(pl.VCase, pl.Shape)
 	var v *c23Viol
-	if pl.Section == "splits" {
+	if pl.Section == "session-splits" {
+		for _, i := range pl.Seq {
+			if i < 0 || i >= len(items) {
+				r.HarnessError("replay: bad session item index %d", i)
+				return
+			}
+		}
+		s := c23BuildSessStream(items, senc[pl.VCase], pl.Shape, pl.Seq)
+		fmt.Printf("replay session-splits: version-case %d session %q frames %v stream(%d)=%s cuts=%v\n", pl.VCase, c23ShapeNames[pl.Shape], s.names, len(s.wire), c23Hex(s.wire), pl.Cuts)
+		v = fd.split(s, pl.Cuts, &c23SplitStats{})
+	} else if pl.Section == "splits" {
 		for _, i := range pl.Seq {
 			if i < 0 || i >= len(menu) {
 				r.HarnessError("replay: bad menu index %d", i)
